@@ -7,6 +7,7 @@ import (
 	"io"
 	"os"
 	"runtime"
+	"strings"
 	"time"
 	"unsafe"
 
@@ -106,6 +107,8 @@ type c08Trace struct {
 	FinR  int     `json:"finr"`  // interned dump of the streamed reference map
 	ExpB  []int   `json:"expb"`  // interned block-level dumps expected for the [2,..] events (streaming parse of prefix with a one-shot reader)
 	After int     `json:"after"` // reads issued after the latch
+	Lim   int     `json:"lim"`   // 1 = the model (Stream.tla with a small MaxBuf) expects "block too large": exp/expb are those of input[:upto]
+	ELine int     `json:"eline"` // ... and this line number in the error
 }
 
 type c08Case struct {
@@ -113,6 +116,10 @@ type c08Case struct {
 	Cut   int
 	Fail  bool
 	Sched [][2]int
+	// size limit (hook SetVerifLimits): Max > 0 runs the scheduled parse with chunkSize = Chunk and maxBlockSize = Max;
+	// Upto >= 0 means the model expects the parser to drop the line that starts at Upto and to report it as too large
+	Chunk, Max  int
+	Upto, ELine int
 }
 
 // errId: 0 nil, 1 io.EOF, 2 the injected failure (same value), 3 anything else
@@ -125,8 +132,20 @@ func errID(err, injected error) int {
 	case injected != nil && err == injected:
 		return 2
 	default:
+		var line int
+		if n, _ := fmt.Sscanf(err.Error(), "line %d: block too large", &line); n == 1 && strings.HasSuffix(err.Error(), ": block too large") {
+			return 4
+		}
 		return 3
 	}
+}
+
+func tooLargeLine(err error) int {
+	var line int
+	if err != nil {
+		fmt.Sscanf(err.Error(), "line %d: block too large", &line)
+	}
+	return line
 }
 
 func runC08(c *c08Case, in *interner) (t *c08Trace, panicMsg string) {
@@ -136,7 +155,12 @@ func runC08(c *c08Case, in *interner) (t *c08Trace, panicMsg string) {
 		}
 	}()
 	prefix := c.Input[:c.Cut]
+	delivered := prefix
 	t = &c08Trace{Cut: c.Cut, Exp: []int{}, Evs: [][]int{}, Fin: []int{}, ExpB: []int{}}
+	if c.Max > 0 && c.Upto >= 0 {
+		t.Lim, t.ELine = 1, c.ELine
+		prefix = c.Input[:c.Upto]
+	}
 	var injected error
 	if c.Fail {
 		t.Fail = 1
@@ -159,7 +183,11 @@ func runC08(c *c08Case, in *interner) (t *c08Trace, panicMsg string) {
 			t.ExpB = append(t.ExpB, in.id(dumpRoot(b)))
 		}
 	}
-	rd := &schedReader{data: prefix, sched: c.Sched, failErr: injected}
+	rd := &schedReader{data: delivered, sched: c.Sched, failErr: injected}
+	if c.Max > 0 {
+		commonmark.SetVerifLimits(c.Chunk, c.Max)
+		defer commonmark.SetVerifLimits(0, 0)
+	}
 	p := commonmark.NewBlockParser(rd)
 	var blocks []*commonmark.RootBlock
 	refs := make(commonmark.ReferenceMap)
@@ -175,7 +203,7 @@ func runC08(c *c08Case, in *interner) (t *c08Trace, panicMsg string) {
 		b, err := p.NextBlock()
 		flush()
 		if err != nil {
-			t.Evs = append(t.Evs, []int{3, errID(err, injected)})
+			t.Evs = append(t.Evs, []int{3, errID(err, injected), tooLargeLine(err)})
 			extra++
 			if extra > 3 {
 				break
@@ -216,8 +244,14 @@ func c08OK(t *c08Trace) string {
 			if t.Fail == 1 {
 				want = 2
 			}
+			if t.Lim == 1 {
+				want = 4
+			}
 			if e[1] != want {
 				return fmt.Sprintf("error id %d, want %d", e[1], want)
+			}
+			if t.Lim == 1 && e[2] != t.ELine {
+				return fmt.Sprintf("block too large reported for line %d, want line %d", e[2], t.ELine)
 			}
 		}
 	}
@@ -303,6 +337,9 @@ func cmdStream(args []string) *Result {
 				v := anyInts(s)
 				c.Sched = append(c.Sched, [2]int{v[0], v[1]})
 			}
+			if m, ok := rec["max"].(float64); ok && m > 0 {
+				c.Max, c.Chunk, c.Upto, c.ELine = int(m), int(rec["chunk"].(float64)), int(rec["upto"].(float64)), int(rec["eline"].(float64))
+			}
 			t, pm := runC08(c, &interner{})
 			res.Evaluations = 1
 			if pm != "" {
@@ -345,6 +382,9 @@ func streamC08(res *Result, enc *shardWriter, tlcOuts []string) {
 		t, pm := runC08(c, in)
 		res.Evaluations++
 		rec := map[string]any{"kind": "c08", "input": ints(c.Input), "cut": c.Cut, "fail": c.Fail, "sched": c.Sched}
+		if c.Max > 0 {
+			rec["max"], rec["chunk"], rec["upto"], rec["eline"] = c.Max, c.Chunk, c.Upto, c.ELine
+		}
 		if pm != "" {
 			res.addCandidate(Candidate{Sig: map[string]any{"input": ints(c.Input), "class": "panic"}, Record: rec, What: fmt.Sprintf("panic while streaming %q: %s", c.Input, pm)})
 			return
@@ -379,22 +419,36 @@ func streamC08(res *Result, enc *shardWriter, tlcOuts []string) {
 		}
 	}
 	// (A) schedules generated by TLC from Stream.tla
+	nlimited := 0
 	for _, path := range tlcOuts {
 		forEachTLCRecord(path, func(raw []byte) {
 			var r struct {
 				In    []int    `json:"in"`
 				Fail  int      `json:"fail"`
 				Sched [][2]int `json:"sched"`
+				Ret   string   `json:"ret"`
+				ELine int      `json:"eline"`
+				Upto  int      `json:"upto"`
+				Chunk int      `json:"chunk"`
+				Max   int      `json:"max"`
 			}
 			mustUnmarshal(raw, &r)
-			c := &c08Case{Input: bytesOf(r.In), Cut: len(r.In), Sched: r.Sched}
+			c := &c08Case{Input: bytesOf(r.In), Cut: len(r.In), Sched: r.Sched, Upto: -1}
 			if r.Fail >= 0 {
 				c.Cut, c.Fail = r.Fail, true
+			}
+			if r.Max > 0 && r.Max < 1000 {
+				// Stream.tla with the size limit switched on: the real parser runs with the model's chunkSize and maxBlockSize
+				c.Max, c.Chunk = r.Max, r.Chunk
+				if r.Ret == "TooLarge" {
+					c.Upto, c.ELine = r.Upto, r.ELine
+					nlimited++
+				}
 			}
 			emit(c)
 		})
 	}
-	phase("c08: TLC schedules done", res)
+	phase(fmt.Sprintf("c08: TLC schedules done (%d of them end in block too large)", nlimited), res)
 	thorough := os.Getenv("VERIF_TIER") == "thorough"
 	// (B1) every composition of every short input over an alphabet that holds CRLF, NUL runs, multi-byte characters
 	alpha := []string{"a", " ", "\n", "\r", "\x00", "#", "`", ">", "-", "\xc3\xa9", "\xef\xbb\xbf"}
